@@ -166,6 +166,10 @@ func propC13(w *World, r *Report) {
 		}
 	}
 	RunBigEndian(w, r, func(p string) bool { return p == sp.Pkg.Path() })
+	for _, a := range boundsAssumptions {
+		r.Assumes(a)
+	}
+	RunLosslessFor(w, r, "C13", newBoundsRun(w))
 	r.Floor("dicttypes", 15)
 }
 
